@@ -87,6 +87,15 @@ func flagSets(names ...string) []map[string]string {
 	return out
 }
 
+func bundleKeyNames() []string {
+	var ks []string
+	for k := range relicx.BundleKeys {
+		ks = append(ks, k)
+	}
+	sort.Strings(ks)
+	return ks
+}
+
 func main() {
 	run = vlib.NewRun("C05", "model_checking")
 	relicx.Quiet()
@@ -119,6 +128,9 @@ func main() {
 	dergen.HashByOID["2.16.840.1.101.3.4.2.4"] = crypto.SHA224 // the shared walker's table has no SHA-224 entry
 	if fx, err = dergen.LoadFixtures(); err != nil {
 		fatal("fixtures: %v", err)
+	}
+	for k := range relicx.BundleKeys {
+		fx.Keys[k] = fx.Keys["rsaA"] // the same key and leaf behind another certificate file
 	}
 	setupTools()
 
@@ -318,6 +330,13 @@ func planJar(thorough bool, keys []string) {
 			plan("jar", "rfc3161", func() { runJarCase(c, in, jarOpts{cli: true, ossl: true}) })
 		}
 	}
+	// key rsaA behind certificate files of other shapes: foreign PEM blocks
+	// before and between the certificates, a superseded intermediate listed first
+	for _, k := range bundleKeyNames() {
+		c := mk(canon[0], k, "sha256", map[string]string{}, false)
+		in := canon[0].jarBytes()
+		plan("jar", "certificate-file shapes", func() { runJarCase(c, in, jarOpts{cli: true, ossl: true}) })
+	}
 	// all shapes
 	ks, hs := []string{"rsaA", "p256A"}, []string{"sha256"}
 	sub := "all shapes x {rsaA,p256A} x sha256 x 4 flag sets"
@@ -438,6 +457,11 @@ func planPE(thorough bool, keys []string) {
 		in := canonIn[0]
 		c := mk(in.id, in.cls, k, "sha256", false, true, in.gen)
 		plan("pe", "rfc3161", func() { runPECase(c, in.data, peOpts{ossl: true}) })
+	}
+	for _, k := range bundleKeyNames() {
+		in := canonIn[0]
+		c := mk(in.id, in.cls, k, "sha256", false, false, in.gen)
+		plan("pe", "certificate-file shapes", func() { runPECase(c, in.data, peOpts{ossl: true}) })
 	}
 	for _, s := range all {
 		s := s
